@@ -41,7 +41,7 @@ func WConfig(prop, tier string) *Config {
 	switch prop {
 	case "C01":
 		ops := []string{"swap_in_p1_usdc_atom_D", "swap_in_p1_usdc_atom_L", "swap_in_p1_atom_usdc_L", "swap_out_p1_usdc_atom_L", "swap_out_p1_atom_usdc_D",
-			"swap_in_p2_usdc_elys_L", "swap_in_p2_elys_usdc_D", "swap_out_p2_elys_usdc_L", "swap_in_2hop_elys_atom_L", "swap_out_2hop_atom_elys_L", "swap_batch_opposite_p1",
+			"swap_in_p2_usdc_elys_L", "swap_in_p2_elys_usdc_D", "swap_out_p2_elys_usdc_L", "swap_in_2hop_elys_atom_L", "swap_out_2hop_atom_elys_L", "swap_batch_opposite_p1", "swap_in_samepool_p1_usdc_atom_usdc", "swap_in_samepool_p2_elys_usdc_elys", "swap_out_samepool_p2_usdc_elys_usdc",
 			"join_p1_all_t1", "join_p1_single_usdc_t1", "join_p2_all_t1", "exit_p1_10pct_lp1", "exit_p1_single_atom_lp1", "exit_p2_allbut1_lp1",
 			"perp_open_long_t1", "perp_open_long_atomcoll_t1", "perp_open_short_t2", "perp_close_half_t1", "perp_close_full_t2", "perp_bot_close_all",
 			"llp_open_t1_x3", "llp_close_full_t1", "create_pool_lp1", "price_atom_3", "price_atom_8", "fee_tx_uatom", "fee_tx_uelys", "gap_1d", "donate_p1_atom", "donate_p2_usdc", "empty"}
